@@ -168,6 +168,14 @@ M("c04.toy.dsa.verify.modq", "C04", DSAPY, "v = (pow(g, u1, p) * pow(y, u2, p) %
 M("c04.toy.dsa.sign.r", "C04", DSAPY, "r = pow(g, k, p) % q  # r = (g**k mod p) mod q", "r = pow(g, k, q) % p", "K-pw|dsa.toy.sign")
 M("c04.twin.toy.ecdsa.verify", "C04", ECCPY, "return (point1 + point2).x % order == rs[0]", "v = (point2 + point1).x % order\n        return v == rs[0]", twin=True)
 
+OCBC = "src/raw_ocb.c"
+M("c02.ocb.double.const", "C02", OCBC, "(carry & 0x87)", "(carry & 0x86)", "K-pw|c|ocb.crypt")
+M("c01.ocb.checksum.pad", "C01", OCBC, "        state->checksum[in_len] ^= 0x80;", "        state->checksum[in_len] |= 0x80;", "K-pw|c|ocb.crypt")
+M("c01.ocb.aad.pad", "C01", OCBC, "        pt[in_len] = 0x80;", "        pt[in_len] = 0x01;", "K-pw|c|ocb.crypt")
+M("c02.ocb.ntz.width", "C02", OCBC, "static unsigned ntz(uint64_t counter)", "static unsigned ntz(uint32_t counter)", "K-pw|c|ocb.crypt")
+M("c01.ocb.dec.checksum", "C01", OCBC, "    checksummed = OCB_ENCRYPT==direction ? in : out;", "    checksummed = in;", "K-pw|c|ocb.crypt")
+M("c09.ocb.partial.offset", "C09", OCBC, "            state->offset_P[i] ^= state->L_star[i];\n\n        result = state->cipher->encrypt(state->cipher, state->offset_P, pad, BLOCK_SIZE);", "            state->offset_P[i] ^= state->L_dollar[i];\n\n        result = state->cipher->encrypt(state->cipher, state->offset_P, pad, BLOCK_SIZE);", "SEG-c|c|ocb.crypt")
+M("c17.ocb.tagsize", "C17", OCBC, "    if (BLOCK_SIZE != tag_len)\n        return ERR_TAG_SIZE;", "    if (BLOCK_SIZE < tag_len)\n        return ERR_TAG_SIZE;", "G-c|c|ocb.guards")
 KWPY, KWPPY = "lib/Crypto/Cipher/_mode_kw.py", "lib/Crypto/Cipher/_mode_kwp.py"
 M("c02.kw.steps", "C02", KWPY, "    s = 6 * (n - 1)\n    A = S[0]", "    s = 6 * n\n    A = S[0]", "K-pw|kw")
 M("c02.kw.t.endian", "C02", KWPY, "        t_64 = struct.pack('>Q', t)\n        ct = cipher.encrypt", "        t_64 = struct.pack('<Q', t)\n        ct = cipher.encrypt", "K-pw|kw")
